@@ -79,7 +79,7 @@ impl VelocityControl {
 
 //@fn vls-core/src/util/velocity.rs :: impl VelocityControl :: clear props=C12
 //@include frag/c/vc_clear.rs
-//@sub /(?s)for bucket in self\.buckets\.iter_mut\(\) \{\s*\*bucket = 0;\s*\}/ => let vx_n = self.buckets.len(); for vx_i in 0..vx_n { self.buckets.set(vx_i, 0); }
+//@sub /(?s)for (\w+) in self\.buckets\.iter_mut\(\) \{\s*\*\1 = 0;\s*\}/ => let vx_n = self.buckets.len(); for vx_i in 0..vx_n { self.buckets.set(vx_i, 0); }
 //@loop 1 iter=it
         invariant
             vx_n == old(self).buckets@.len(), self.buckets@.len() == vx_n, it.snapshot.end == vx_n,
